@@ -77,6 +77,10 @@ init_mb_mgr_avx2(IMB_MGR *state)
 {
         init_mb_mgr_avx2_internal(state, 1);
 
+        /* nothing was set up (NULL manager or missing CPU flags): keep the error, skip the self-test */
+        if (state == NULL || state->imb_errno != 0)
+                return;
+
         if (!self_test(state))
                 imb_set_errno(state, IMB_ERR_SELFTEST);
 }
